@@ -13,6 +13,7 @@ from .shared_speed_logistic import SharedSpeedLogisticModel
 __all__ = [
     "ModelName",
     "model_factory",
+    "get_model_name",
 ]
 
 
@@ -81,3 +82,36 @@ def model_factory(
         return ConstantModel(instance_name, **kwargs)
     if name == ModelName.MIXTURE_LOGISTIC:
         return LogisticMultivariateMixtureModel(instance_name, **kwargs)
+
+
+_MODEL_NAME_OF_CLASS = {
+    JointModel: ModelName.JOINT,
+    LogisticModel: ModelName.LOGISTIC,
+    LinearModel: ModelName.LINEAR,
+    SharedSpeedLogisticModel: ModelName.SHARED_SPEED_LOGISTIC,
+    LMEModel: ModelName.LME,
+    ConstantModel: ModelName.CONSTANT,
+    LogisticMultivariateMixtureModel: ModelName.MIXTURE_LOGISTIC,
+}
+
+
+def get_model_name(model: BaseModel) -> Optional[ModelName]:
+    """
+    Return the :class:`ModelName` (the key understood by :func:`model_factory`) of a model instance.
+
+    The class of the model (or its closest parent known by the factory) is used,
+    not the free-form instance name given by the user.
+
+    Parameters
+    ----------
+    model : :class:`.BaseModel`
+
+    Returns
+    -------
+    :class:`ModelName` or None
+        None if the model does not derive from any class known by the factory.
+    """
+    for klass in type(model).__mro__:
+        if klass in _MODEL_NAME_OF_CLASS:
+            return _MODEL_NAME_OF_CLASS[klass]
+    return None
